@@ -49,6 +49,16 @@ def main(argv=None):
         ("ordered, 4 leaves x 2-3 families: dup/hgt/sloss symbolic (spe=0, floss=1)", [(d, SR.runs_for(["base_spfs", "ext_spfs"], pol, FLAGS, "dhs")) for d in od4], False),
         ("unordered, 5 leaves x 2-4 families: dup/hgt/sloss symbolic (spe=0, floss=1)", [(d, SR.runs_for(["base_uspfs", "superdtl"], pol, FLAGS, "dhs")) for d in un5], False),
     ]
+    if not q:
+        # one structural family completely (unordered, 'all'): 4-leaf caterpillar, every assignment to two species, every leaf content over three families
+        import itertools
+        subs = [list(c) for k in (1, 2, 3) for c in itertools.combinations("abc", k)]
+        family = [{"ot": ((("g0", "g1"), "g2"), "g3"), "st": ("A", "B"), "leafmap": dict(zip(["g0", "g1", "g2", "g3"], assign)),
+                   "leafsyn": dict(zip(["g0", "g1", "g2", "g3"], combo))}
+                  for assign in itertools.product("AB", repeat=4) for combo in itertools.product(subs, repeat=4)]
+        sections.append(("complete family: 4-leaf caterpillar x 2 species x every leaf content over 3 families (38 416 inputs), superdtl 'all', dup/sloss symbolic",
+                         [(d, [{"algo": "superdtl", "policy": "all", "sym": ["dup", "sloss"], "fixed": {"spe": 0, "floss": 1, "hgt": 1},
+                                "flags": sorted(FLAGS), "coherent": True}]) for d in family], True))
     return sr_main.run(
         PROP, tier, seed, sections, ["plain", "unordered", "ordered", "dp"],
         bounds={"inputs": "plain: every input with 1-3 object x 1-3 species leaves + seeded 4-leaf (thorough: also 5-leaf) inputs; unordered: seeded 2-4 "
@@ -62,7 +72,7 @@ def main(argv=None):
         rule="one evaluation = one structural input explored for the listed algorithms, any + all, finite symbolic and infinite transfer cost; "
              "non-trivial = exploration forked on a cost comparison",
         outside=["cost vectors outside the coherent region", "inputs beyond the stated sizes", "non-canonical unordered labellings (excluded by the property)"],
-        budget=150 if q else 3000, max_paths=6000 if q else 30000, budget_s=200.0 if q else 900.0)
+        budget=150 if q else 5400, max_paths=6000 if q else 30000, budget_s=200.0 if q else 900.0)
 
 
 if __name__ == "__main__":
